@@ -1,12 +1,11 @@
 #!/bin/bash
-# tools/witness.sh <Cnn> <gate> [all-gates-file]: open exactly one gate (all others of the list closed), run the
-# quick tier, and adopt the shrunk failure as findings/<Cnn>/<gate>.json if its signature mentions the gate.
-P=$1; G=$2; ALL=$(cat ${3:-/tmp/${P,,}gates})
-OTHERS=$(echo $ALL | tr ',' '\n' | grep -v "^$G\$" | paste -sd,)
+# tools/witness.sh <Cnn> <gate> [name]: re-open one gate (all others stay as KNOWN_FINDINGS.txt says), run the
+# quick tier, and adopt the shrunk failure as findings/<Cnn>/<name|gate>.json
+P=$1; G=$2; N=${3:-$2}
 cd /verif
-OUT=$(VERIF_DEV_GATES=$OTHERS VERIF_NO_FINDINGS=1 ./run $P quick 2>&1)
+OUT=$(VERIF_DEV_WANT_SIG=${WANT:-$G} VERIF_DEV_OPEN_GATES=$G VERIF_DEV_GATES=${EXTRA_GATES:-} ./run $P quick 2>&1)
 R=$(echo "$OUT" | grep '^VIOLATION' | head -1 | sed 's/.*replay=//')
 [ -z "$R" ] && { echo "no violation found with gate $G open"; echo "$OUT" | tail -3; exit 1; }
 SIG=$(python3 -c "import json;print(json.load(open('$R'))['sig'])")
 echo "sig: $SIG"
-tools/adopt.sh $R $P $G | tail -n +2 | head -8
+tools/adopt.sh $R $P $N | tail -n +2 | head -8
